@@ -20,7 +20,12 @@ sys.setrecursionlimit(100000)
 
 def domain_sd(rng, max_sub=4, negative_dval=True):
     """random small scenario inside C20's domain: every cost >= 1, non-sensitive values <= 1"""
-    sd = scen.random_sd(rng, max_subnets=max_sub, max_size=2)
+    return to_domain(rng, scen.random_sd(rng, max_subnets=max_sub, max_size=2), negative_dval)
+
+
+def to_domain(rng, sd, negative_dval=True):
+    """the scenario moved into C20's domain (topology, firewalls, sensitive addresses kept)"""
+    sd = dict(sd, exploits=[dict(e) for e in sd["exploits"]], privescs=[dict(q) for q in sd["privescs"]])
     for e in sd["exploits"]:
         e["cost"] = rng.choice([1, 1, 2, 1.5])
         e["prob"] = rng.choice([1.0, 0.8, 1.0])
@@ -43,6 +48,34 @@ def domain_sd(rng, max_sub=4, negative_dval=True):
     sd["sens"] = [(a, hm[a]["val"]) for a, _ in sd["sens"]]
     sd["limit"] = None
     return sd
+
+
+def one_per_subnet(sd):
+    """same topology, one host per subnet, sensitive where the subnet had a sensitive host"""
+    subs = sorted({a[0] for a, _ in sd["sens"]})
+    n = len(sd["subnets"])
+    return dict(sd, subnets=[1] * n, hosts=[((s_, 0), {}) for s_ in range(1, n)], sens=[((s_, 0), 100) for s_ in subs],
+                bounds=(max(n, sd["bounds"][0]), max(1, sd["bounds"][1])))
+
+
+def tight_sd(rng, sd, dup=False):
+    """the scenario's topology and sensitive addresses with everything else as favourable to the attacker as the
+    domain allows (one root exploit of cost 1 that works everywhere, open firewalls, non-sensitive hosts worth 1):
+    the optimum return then comes as close to the advertised bound as the topology lets it.  dup: the cheap
+    exploit is the SECOND definition for its (service, os) pair, the first one costs 3."""
+    n = len(sd["subnets"])
+    cfg = lambda a: dict(os=[True], srv=[True], proc=[True], val=1, dval=rng.choice([0, 1]), fw={})   # noqa: E731
+    hosts = [(a, cfg(a)) for a, _ in sd["hosts"]]
+    hm = dict(hosts)
+    for a, _ in sd["sens"]:
+        hm[a]["val"] = 100
+    ex = [dict(srv=0, os=0 if dup else None, prob=1.0, cost=1, acc=2)]
+    if dup:
+        ex = [dict(srv=0, os=0, prob=1.0, cost=3, acc=2)] + ex
+    return dict(subnets=list(sd["subnets"]), topo=[list(r) for r in sd["topo"]], nos=1, nsrv=1, nproc=1, exploits=ex,
+                privescs=[], costs=(1, 1, 1, 1),
+                fw={(s_, t_): [0] for s_ in range(n) for t_ in range(n) if s_ != t_ and sd["topo"][s_][t_]},
+                hosts=hosts, sens=[(a, 100) for a, _ in sd["sens"]], limit=None, bounds=tuple(sd["bounds"]))
 
 
 def star_sd(k):
@@ -128,6 +161,15 @@ def run(ctx, spec):
                 impl=[hops, bound], model=m[:2]))
     # ---- the property itself on the real environment
     cases = [("star2", star_sd(2)), ("star3", star_sd(3))] + [(f"random{i}", domain_sd(rng)) for i in range(n_opt)]
+    # where the tie broke, the search for a failing input starts: the same topology inside the property's domain
+    broken = [v for v in out["violations"] if v["kind"] == "broken-correspondence"]
+    for j, v in enumerate(broken[:12]):
+        cases.append((f"tie-broken{j}.tight-1-per-subnet", tight_sd(rng, one_per_subnet(v["scenario"]))))
+        if len(v["scenario"]["hosts"]) > 7:
+            continue
+        cases.append((f"tie-broken{j}.random", to_domain(rng, v["scenario"])))
+        cases.append((f"tie-broken{j}.tight", tight_sd(rng, v["scenario"])))
+        cases.append((f"tie-broken{j}.tight-dup", tight_sd(rng, v["scenario"], dup=True)))
     wires = [scen.sd_wire(sd) for _, sd in cases]
     mo = []
     for i in range(0, len(wires), 25):
@@ -150,22 +192,31 @@ def run(ctx, spec):
         solved += 1
         distinct.add(json.dumps(wires[cases.index((name, sd))]))
         adv = float(env.get_score_upper_bound())
+        ihops = int(env.get_minimum_hops())
+        # the recorded finding D13 is the ORIGINAL computation (the model's walk length) being too large;
+        # any other value the implementation advertises is not that finding
+        as_modelled = ihops == hops and fx(adv) == bound
         if len(out["samples"]) < 3:
             out["samples"].append(dict(scenario=name, advertised_bound=adv, optimum_return=opt, min_hops=hops,
                                        hosts_that_must_be_compromised=steiner, best_episode=path))
         if opt > adv + 1e-9:
             neg_dval = any(c["dval"] < 0 for _, c in sd["hosts"])
-            if hops > steiner:
+            if hops > steiner and as_modelled:
                 sig = "hops-is-walk-length"
-            elif neg_dval:
+            elif neg_dval and as_modelled:
                 sig = "negative-discovery-value"
             else:
                 sig = None
             out["violations"].append(dict(
                 kind="scenario+episode", property=pid, failing_input_found=True, signature=sig, scenario=sd, name=name,
                 what=f"a goal-reaching episode of the real environment earns {opt} > advertised upper bound {adv} "
-                     f"(advertised min hops {hops}, hosts that must be compromised {steiner})",
+                     f"(advertised min hops {ihops}, hosts that must be compromised {steiner})",
                 episode_flat_action_indices=path, optimum=opt, advertised=adv))
+        elif ihops > steiner and not as_modelled:
+            out["violations"].append(dict(
+                kind="scenario", property=pid, failing_input_found=True, signature=None, scenario=sd, name=name,
+                what=f"advertised minimum hops {ihops} exceeds the {steiner} hosts that must be compromised "
+                     f"(the original computation gives {hops})"))
         elif hops > steiner and name.startswith("star"):
             out["violations"].append(dict(
                 kind="scenario", property=pid, failing_input_found=True, signature="hops-is-walk-length", scenario=sd,
@@ -182,8 +233,9 @@ def run(ctx, spec):
     out["exhaustive"] = True
     out["states"] = out["evaluations"]
     out["explanation"] = ("C20's full statement is REFUTED for the faithful model by kernel-checked witnesses "
-                          "(theorems C20_hops_le_hosts_refuted, C20_bound_refuted); the positive bound theorem is not "
-                          "proved; see DESIGN.md")
+                          "(theorems C20_hops_le_hosts_refuted, C20_bound_refuted); what holds is proved: C20_sound_bound "
+                          "(S + D - |sensitive hosts| bounds every goal-reaching episode) and "
+                          "C20_advertised_bound_valid_when (the advertised bound is valid whenever hops <= |sensitive hosts|)")
     return out
 
 
